@@ -155,3 +155,14 @@ package webrtc
 //@ requires v >= RTPCodecTypeAudio && v <= RTPCodecTypeVideo
 //@ observe v
 //@ ensures NewRTPCodecType(v.String()) == v
+
+// ---- C38: ICEServer JSON form, field level. What MarshalJSON hands to encoding/json is an
+// object with the URL list, the credential type, the username exactly when it is not empty
+// and the credential exactly when there is one (with that very value).
+// (encoding/json itself is assumed to preserve object keys and string values.)
+//@ func (ICEServer).MarshalJSON
+//@ props C38
+//@ nosafety
+//@ atcall json.Marshal assert indom(m, "urls") && indom(m, "credentialType") && indom(m, "username") == (s.Username != "") && indom(m, "credential") == (s.Credential != nil)
+//@ atcall json.Marshal assert s.Credential != nil ==> m["credential"] == s.Credential
+//@ atcall json.Marshal assert s.Username != "" ==> m["username"] == s.Username
